@@ -39,25 +39,51 @@ theorem isolated (T : Tables) (w : World) (op : Op) (hb : Bounded w) (hs : Separ
   unfold validateH
   rw [hdesc]
 
-/-- the full preservation statement: every admissible operation keeps `Bounded` and `Separated` -/
-def separated_preserved_statement : Prop :=
-  ∀ (T : Tables) (w : World) (op : Op), Admissible w op → Bounded w → Separated w →
-    Bounded (step T w op) ∧ Separated (step T w op)
-
-/-- proved part of `separated_preserved_statement`: creating an instance (with any configuration) keeps
-the invariants — the new instance reaches only objects created for it.  Missing: the same for
-`define` (needs: every object a new class reaches is new or belongs to an existing class) and for the two
-mutations (they write only inside the target instance: `frame`); these are covered by the correspondence
-run (sharing partition after every operation) only. -/
-theorem separated_preserved_partial (T : Tables) (w : World) (n c : Name) (cfg : List (Name × PropMap))
-    (hadm : Admissible w (.inst n c cfg)) (hb : Bounded w) (hs : Separated w) :
-    Bounded (step T w (.inst n c cfg)) ∧ Separated (step T w (.inst n c cfg)) :=
-  preserve_instantiate T w n c cfg hadm hb hs
+/-- **separated_preserved**: every admissible operation — class definition, instantiation with any
+configuration, `setProperty` on an instance, replacement of an enum datatype — keeps the invariants: no
+object reachable from an instance is reachable from any other owner, all references point into the heap. -/
+theorem separated_preserved (T : Tables) (w : World) (op : Op) (hadm : Admissible w op) (hb : Bounded w)
+    (hs : Separated w) : Bounded (step T w op) ∧ Separated (step T w op) := by
+  cases op with
+  | define d => exact preserve_define T w d hadm hb hs
+  | inst n c cfg => exact preserve_instantiate T w n c cfg hadm hb hs
+  | setprop i p k v => exact preserve_setprop T w i p k v hb hs
+  | addEnum i p m => exact preserve_addEnum T w i p m hb hs
 
 /-- a run all of whose intermediate worlds satisfy the invariants -/
 inductive InvRun (T : Tables) : World → List Op → Prop
   | nil (w) : Bounded w → Separated w → InvRun T w []
   | cons (w op ops) : Bounded w → Separated w → InvRun T (step T w op) ops → InvRun T w (op :: ops)
+
+/-- every admissible run from a world satisfying the invariants is an `InvRun` — in particular every
+admissible run from the empty world -/
+theorem invRun_of_admissible (T : Tables) (ops : List Op) (w : World) (hb : Bounded w) (hs : Separated w)
+    (hrun : AdmissibleRun T w ops) : InvRun T w ops := by
+  induction ops generalizing w with
+  | nil => exact .nil w hb hs
+  | cons op ops ih =>
+    have h := separated_preserved T w op hrun.1 hb hs
+    exact .cons w op ops hb hs (ih _ h.1 h.2 hrun.2)
+
+theorem empty_world_ok : Bounded ({} : World) ∧ Separated ({} : World) := by
+  constructor
+  · intro o r hr
+    cases o <;> simp [reach, World.roots, World.findClass, World.findInst] at hr
+  · intro i o _ r hr
+    simp [reach, World.roots, World.findInst] at hr
+
+/-- **isolated**, for whole programs: after any admissible run from the empty world, one more operation
+changes neither description nor validation behaviour of any owner other than its target. -/
+theorem isolated_reachable (T : Tables) (ops : List Op) (hrun : AdmissibleRun T {} ops) (op : Op)
+    (o : Owner) (ho : o ≠ op.target) :
+    describeH (step T (run T {} ops) op) o = describeH (run T {} ops) o := by
+  have key : ∀ (ops : List Op) (w : World), InvRun T w ops → Bounded (run T w ops) ∧ Separated (run T w ops) := by
+    intro ops w h
+    induction h with
+    | nil w hb hs => exact ⟨hb, hs⟩
+    | cons w op ops _ _ _ ih => simpa [run] using ih
+  have h := key ops {} (invRun_of_admissible T ops {} empty_world_ok.1 empty_world_ok.2 hrun)
+  exact (isolated T _ op h.1 h.2 o ho).1
 
 /-- the description of a class is not changed by any sequence of later operations (none of which is the
 definition of that class itself): subclasses, siblings, instances, configurations, mutations -/
@@ -71,76 +97,102 @@ theorem class_description_stable (T : Tables) (c : Name) (ops : List Op) (w : Wo
     simp only [run, List.foldl_cons] at h2 ⊢
     rw [h2, h1]
 
-/-- **later_instances_fresh**: an instance created after any sequence of operations on other owners
-(mutations of other instances included) shows exactly what an instance of the same class with the same
-configuration would have shown before them: the class description, copied, with the configuration applied. -/
+/-- **later_instances_fresh**: an instance created after any admissible sequence of operations on other
+owners (definitions of other classes, other instances, mutations of other instances) shows exactly what an
+instance of the same class with the same configuration would have shown before them: the class description,
+copied, with the configuration applied. -/
 theorem later_instances_fresh (T : Tables) (c n : Name) (cfg : List (Name × PropMap)) (ops : List Op) (w : World)
-    (hrun : InvRun T w ops) (hops : ∀ op ∈ ops, op.target ≠ .cls c)
+    (hb : Bounded w) (hs : Separated w) (hrun : AdmissibleRun T w ops) (hops : ∀ op ∈ ops, op.target ≠ .cls c)
     (h1 : w.findInst n = none) (h2 : (run T w ops).findInst n = none) :
     describeH (instantiate T (run T w ops) n c cfg) (.inst n) = describeH (instantiate T w n c cfg) (.inst n) ∧
     describeH (instantiate T (run T w ops) n c cfg) (.inst n) =
       (instViews T (describeH w (.cls c)) cfg).map (fun nv => (nv.1, some nv.2)) := by
   rw [describe_instantiate T _ n c cfg h2, describe_instantiate T w n c cfg h1,
-    class_description_stable T c ops w hrun hops]
+    class_description_stable T c ops w (invRun_of_admissible T ops w hb hs hrun) hops]
   exact ⟨rfl, rfl⟩
 
-/-- the full statement: the description of a class in the heap is the same in any two reachable worlds in which
-the classes along its MRO were declared alike -/
+/-- the full statement: in any two programs that define their classes with the same bodies (`env`), each in an
+order consistent with inheritance, a class defined by both has the same description in the heap -/
 def order_independent_statement : Prop :=
-  ∀ (T : Tables) (ops1 ops2 : List Op) (c : Name),
-    (∀ m d, m ∈ (match (run T {} ops1).findClass c with | some r => r.pure.decl.mro | none => []) →
-      (Op.define d ∈ ops1 ∧ d.name = m ↔ Op.define d ∈ ops2 ∧ d.name = m)) →
-    describeH (run T {} ops1) (.cls c) = describeH (run T {} ops2) (.cls c)
+  ∀ (T : Tables) (env : Name → Option ClassDecl) (ops1 ops2 : List Op),
+    AdmissibleRun T {} ops1 → ConsistentRun T env {} ops1 → AdmissibleRun T {} ops2 → ConsistentRun T env {} ops2 →
+    ∀ n, (run T {} ops1).findClass n ≠ none → (run T {} ops2).findClass n ≠ none →
+      describeH (run T {} ops1) (.cls n) = describeH (run T {} ops2) (.cls n)
 
-/-- proved part of `order_independent_statement`, at value level: what `__init_subclass__` computes for a
-class (all its accessibles with their merged properties and datatypes, `ClassRec.pure`) is the same whether
-or not an unrelated class `d2` (not on its MRO) was defined first — it is a function of the classes along
-its own MRO and its own declarations.  Missing: that the heap layout shows exactly these values
-(`describeH` = views of `pure`), which is covered by the correspondence run only. -/
-theorem order_independent_partial (T : Tables) (w : World) (d1 d2 : ClassDecl)
-    (hne : d1.name ≠ d2.name) (hmro : d2.name ∉ d1.mro.tail) (hnew : w.findClass d1.name = none) :
-    ((defineClass T (defineClass T w d2) d1).findClass d1.name).map (·.pure) =
-      ((defineClass T w d1).findClass d1.name).map (·.pure) := by
-  have hd2 : (pureDefine T (chainOf w d2) d2).decl.name = d2.name := by rw [pureDefine_decl]
-  have hchain : chainOf (defineClass T w d2) d1 = chainOf w d1 :=
-    chainOf_layout w _ d1 (by rw [hd2]; exact hmro)
-  have hnew2 : (defineClass T w d2).findClass d1.name = none := by
-    unfold defineClass
-    rw [findClass_layout_ne w _ d1.name (by rw [hd2]; exact hne)]
-    exact hnew
-  have key : ∀ (w' : World), w'.findClass d1.name = none →
-      ((defineClass T w' d1).findClass d1.name).map (·.pure) = some (pureDefine T (chainOf w' d1) d1) := by
-    intro w' h'
-    have hn : (pureDefine T (chainOf w' d1) d1).decl.name = d1.name := by rw [pureDefine_decl]
-    unfold defineClass
-    have := findClass_layout_new w' (pureDefine T (chainOf w' d1) d1) (by rw [hn]; exact h')
-    rw [hn] at this
-    rw [this]
-    rfl
-  rw [key _ hnew2, key _ hnew, hchain]
+/-- proved part of `order_independent_statement`, at value level, for whole programs: what
+`__init_subclass__` computed for a class (all accessibles with merged properties, datatypes, export names, order:
+`ClassRec.pure`, the value the heap layout is made from) is `pureOf env` — a function of the class bodies along
+its MRO only — whatever else was defined or instantiated or mutated, in whatever order consistent with
+inheritance.  Hence any two such programs agree on it.
+Missing for the full statement: that `describeH` shows exactly the views of `pure` (faithfulness of `layout`
+for inherited shared accessibles and declared command arguments); covered by the correspondence run only. -/
+theorem order_independent_partial (T : Tables) (env : Name → Option ClassDecl) (ops1 ops2 : List Op)
+    (ha1 : AdmissibleRun T {} ops1) (hc1 : ConsistentRun T env {} ops1)
+    (ha2 : AdmissibleRun T {} ops2) (hc2 : ConsistentRun T env {} ops2)
+    (n : Name) (cr1 cr2 : ClassRec) (h1 : (run T {} ops1).findClass n = some cr1)
+    (h2 : (run T {} ops2).findClass n = some cr2) :
+    cr1.pure = cr2.pure ∧ ∃ f, pureOf T env f n = some cr1.pure := by
+  have hempty : PureInv T env {} := fun m cr h => by simp [World.findClass] at h
+  obtain ⟨f1, hf1⟩ := pureInv_run T env ops1 {} ha1 hc1 hempty n cr1 h1
+  obtain ⟨f2, hf2⟩ := pureInv_run T env ops2 {} ha2 hc2 hempty n cr2 h2
+  have e1 := hf1 (max f1 f2) (Nat.le_max_left _ _)
+  have e2 := hf2 (max f1 f2) (Nat.le_max_right _ _)
+  rw [e1] at e2
+  exact ⟨Option.some.inj e2, _, e1⟩
 
 /-! ## non-vacuity -/
 
-/-- the empty world satisfies the invariants -/
-example : Bounded ({} : World) ∧ Separated ({} : World) := by
-  constructor
-  · intro o r hr
-    cases o <;> simp [reach, World.roots, World.findClass, World.findInst] at hr
-  · intro i o _ r hr
-    simp [reach, World.roots, World.findInst] at hr
+/-- a small table set for the examples -/
+def exT : Tables :=
+  ⟨[("description", "\"\""), ("readonly", "true"), ("export", "true")], [("double", ["min", "max", "unit"])],
+   ["value", "target"], [("description", "description", "\"\"", true, true), ("readonly", "readonly", "true", true, true)],
+   [("description", "description", "\"\"", true, true)]⟩
 
-/-- a run with two instantiations from the empty world is an `InvRun` (hypothesis of `later_instances_fresh`
-and `class_description_stable`), for any tables -/
-example (T : Tables) : InvRun T {} [.inst "a" "C" [], .inst "b" "C" [("p", [("max", "3")])]] := by
-  have h0 : Bounded ({} : World) ∧ Separated ({} : World) := by
-    constructor
-    · intro o r hr
-      cases o <;> simp [reach, World.roots, World.findClass, World.findInst] at hr
-    · intro i o _ r hr
-      simp [reach, World.roots, World.findInst] at hr
-  have h1 := separated_preserved_partial T {} "a" "C" [] (by simp [Admissible, World.findInst]) h0.1 h0.2
-  have h2 := separated_preserved_partial T _ "b" "C" [("p", [("max", "3")])]
-    (by simp [Admissible, World.findInst, step, instantiate]) h1.1 h1.2
-  exact .cons _ _ _ h0.1 h0.2 (.cons _ _ _ h1.1 h1.2 (.nil _ h2.1 h2.2))
+def dA : ClassDecl := ⟨"A", ["A"], true, [("p", .param (some "\"d\"") (some (.node "double" [("max", "10")] [] [])) [] true)]⟩
+def dB : ClassDecl := ⟨"B", ["B", "A"], true, [("p", .param none none [("max", "5")] true)]⟩
+def dC : ClassDecl := ⟨"C", ["C", "A"], true, [("p", .value "1" false none)]⟩
+
+/-- a base class with a parameter, a subclass narrowing it, two instances of the subclass with different
+configuration, a mutation of one of them, and a late sibling class -/
+def exOps : List Op :=
+  [.define dA, .define dB, .inst "i1" "B" [("p", [("max", "3")])], .inst "i2" "B" [], .setprop "i1" "p" "max" "2", .define dC]
+
+/-- the example program is admissible from the empty world (hypothesis of `invRun_of_admissible`,
+`isolated_reachable`, `later_instances_fresh`) … -/
+example : AdmissibleRun exT {} exOps := by
+  refine ⟨rfl, ?_, ?_, ?_, trivial, ?_, trivial⟩ <;>
+    exact Option.isNone_iff_eq_none.1 (by decide +kernel)
+
+/-- the class bodies of the example program -/
+def exEnv (n : Name) : Option ClassDecl :=
+  if n = "A" then some dA else if n = "B" then some dB else if n = "C" then some dC else none
+
+/-- … consistent with inheritance w.r.t. its own class bodies (hypothesis of `order_independent_partial`) … -/
+example : ConsistentRun exT exEnv {} exOps := by
+  refine ⟨⟨by simp [exEnv, dA], fun m hm => ?_⟩, ⟨by simp [exEnv, dB], fun m hm => ?_⟩, trivial, trivial, trivial,
+    ⟨by simp [exEnv, dC], fun m hm => ?_⟩, trivial⟩
+  · simp [dA] at hm
+  · simp only [dB, List.tail_cons, List.mem_singleton] at hm
+    subst hm
+    intro _ h
+    have : ((step exT {} (.define dA)).findClass "A").isSome = true := by decide +kernel
+    rw [h] at this
+    cases this
+  · simp only [dC, List.tail_cons, List.mem_singleton] at hm
+    subst hm
+    intro _ h
+    have : ((run exT {} (exOps.take 5)).findClass "A").isSome = true := by decide +kernel
+    have h' : (run exT {} (exOps.take 5)).findClass "A" = none := h
+    rw [h'] at this
+    cases this
+
+/-- … and it is not trivial: it builds 3 classes and 2 instances out of 11 heap objects, and the mutation of
+`i1` is visible in `i1` (max 2) while `i2` shows the class value (max 5) -/
+example : (run exT {} exOps).heap.length = 11 ∧ (run exT {} exOps).classes.length = 3 ∧
+    (run exT {} exOps).insts.length = 2 := by decide +kernel
+
+example : ((describeH (run exT {} exOps) (.inst "i1")).map (fun nv => nv.2.bind (·.tree) |>.map (·.props))) = [some [("max", "2")]] ∧
+    ((describeH (run exT {} exOps) (.inst "i2")).map (fun nv => nv.2.bind (·.tree) |>.map (·.props))) = [some [("max", "5")]] := by
+  decide +kernel
 
 end Frappy.Props.C09
